@@ -413,6 +413,167 @@ fn state_values(rng: &mut Rng) -> [u64; 16] {
     s
 }
 
+// ---- directed stream: algebraic relations between lanes ---------------------------------------------------
+const P7: u64 = 7;
+const P49: u64 = 49;
+/// a value whose Montgomery word has only bytes 00 / ff (and is canonical)
+fn mont_bytes_00ff(rng: &mut Rng) -> u64 {
+    loop {
+        let mut w = 0u64;
+        for k in 0..8 {
+            if rng.coin(1, 2) {
+                w |= 0xffu64 << (8 * k);
+            }
+        }
+        if w < P {
+            return unmont(w);
+        }
+    }
+}
+fn relation_base(rng: &mut Rng) -> [u64; 16] {
+    let mut s = [0u64; 16];
+    let mode = rng.below(4);
+    for x in s.iter_mut() {
+        *x = match mode {
+            0 => rng.below(P),
+            1 => rng.fval(),
+            2 => *rng.pick(&[0u64, 1, P - 1, 2, 7, P - 2]),
+            _ => unmont(raw_word(rng)),
+        };
+    }
+    s
+}
+/// impose relation `kind` between lanes `i` (source) and `j` (target) of `s` (canonical values)
+fn impose_relation(rng: &mut Rng, s: &mut [u64; 16], kind: u64, i: usize, j: usize) {
+    match kind {
+        0 => s[j] = s[i],
+        1 => s[j] = powp(s[i], P7),
+        2 => s[j] = powp(s[i], P49),
+        3 => {
+            // lane j = lookup image of lane i's Montgomery word (the lookup-lane analogue of "already mapped")
+            let lut = |b: u8| LOOKUP_TABLE[b as usize];
+            s[j] = unmont(map_bytes(mont(s[i]), lut));
+        }
+        4 => {
+            s[i] = *rng.pick(&[0u64, 1, P - 1]);
+            s[j] = *rng.pick(&[0u64, 1, P - 1]);
+        }
+        5 => {
+            s[i] = mont_bytes_00ff(rng);
+            s[j] = if rng.coin(1, 2) { s[i] } else { mont_bytes_00ff(rng) };
+        }
+        _ => {
+            // a whole chain: every following lane is the 7th power of its predecessor
+            for k in i + 1..16 {
+                s[k] = powp(s[k - 1], P7);
+            }
+        }
+    }
+}
+fn push_relation_ops(rng: &mut Rng, s: &[u64; 16], which: u64, out: &mut Vec<String>) {
+    match which {
+        0 => out.push(format!("tip5 trace {}", fmt_list_u64(s))),
+        1 => out.push(format!("tip5 perm {}", fmt_list_u64(s))),
+        2 => out.push(format!("tip5 hash10 {}", fmt_list_u64(&s[..10]))),
+        3 => out.push(format!("tip5 hashpair {} {}", fmt_list_u64(&s[..5]), fmt_list_u64(&s[5..10]))),
+        _ => {
+            let r = 1 + rng.below(4) as usize;
+            out.push(format!("tip5 trace {}", fmt_list_u64(&pull_back(r, s))));
+        }
+    }
+}
+fn relation_stream(rng: &mut Rng, thorough: bool, out: &mut Vec<String>) {
+    // (a) every adjacent pair (both directions) x {equal, ^7, ^49, lookup image}: at round 0 through trace
+    for i in 0..15usize {
+        for kind in 0..4u64 {
+            for rev in [false, true] {
+                if kind == 3 && i >= 4 {
+                    continue;
+                }
+                let mut s = relation_base(rng);
+                let (a, b) = if rev { (i + 1, i) } else { (i, i + 1) };
+                impose_relation(rng, &mut s, kind, a, b);
+                push_relation_ops(rng, &s, 0, out);
+            }
+        }
+    }
+    // (b) 7th-power chains from every start lane, specials and 00/ff words in every lane pair class
+    for i in 0..15usize {
+        let mut s = relation_base(rng);
+        impose_relation(rng, &mut s, 6, i, i);
+        push_relation_ops(rng, &s, if i % 2 == 0 { 0 } else { 1 }, out);
+    }
+    // (c) random relation, random lanes (adjacent or not; power lanes, lookup lanes or across), several relations per state,
+    //     through every entry point, also at the input of a later round
+    let n = if thorough { 20_000 } else { 165 };
+    for t in 0..n {
+        let mut s = relation_base(rng);
+        let which = [0u64, 0, 1, 2, 3, 4][t % 6];
+        let top = if which == 2 || which == 3 { 10 } else { 16 };
+        for _ in 0..1 + rng.below(3) {
+            let kind = rng.below(6);
+            let i = rng.below(top as u64) as usize;
+            let j = match rng.below(3) {
+                0 => (i + 1) % top,
+                1 => (i + top - 1) % top,
+                _ => rng.below(top as u64) as usize,
+            };
+            if i != j {
+                impose_relation(rng, &mut s, kind, i, j);
+            }
+        }
+        if which == 2 && rng.coin(1, 3) {
+            // hash_10: the capacity lanes are ONE -- make the neighbouring rate lane relate to them
+            s[9] = *rng.pick(&[1u64, 0, P - 1]);
+        }
+        push_relation_ops(rng, &s, which, out);
+    }
+}
+/// evidence: which relations between lanes the S-box layer of a round actually saw
+fn classify_relations(v: &[u64; 16], st: &mut Stats) {
+    let zone = |i: usize, j: usize| {
+        if i < 4 && j < 4 {
+            "lookup"
+        } else if i >= 4 && j >= 4 {
+            "power"
+        } else {
+            "across"
+        }
+    };
+    for i in 0..16 {
+        if v[i] == 0 || v[i] == 1 || v[i] == P - 1 {
+            st.hit(if i < 4 { "rel:lane in {0,1,P-1}:lookup" } else { "rel:lane in {0,1,P-1}:power" });
+        }
+        let w = mont(v[i]);
+        if (0..8).all(|k| matches!((w >> (8 * k)) & 0xff, 0 | 0xff)) {
+            st.hit(if i < 4 { "rel:mont bytes 00/ff:lookup" } else { "rel:mont bytes 00/ff:power" });
+        }
+    }
+    for i in 0..16 {
+        let p7 = powp(v[i], P7);
+        let p49 = powp(p7, P7);
+        let li = unmont(map_bytes(mont(v[i]), |b: u8| LOOKUP_TABLE[b as usize]));
+        for j in 0..16 {
+            if i == j || v[i] <= 1 || v[i] == P - 1 {
+                continue;
+            }
+            let adj = if j == i + 1 { "next" } else if i == j + 1 { "prev" } else { "nonadjacent" };
+            if v[j] == v[i] && i < j {
+                st.hit(&format!("rel:equal:{}:{}", if adj == "nonadjacent" { adj } else { "adjacent" }, zone(i, j)));
+            }
+            if v[j] == p7 {
+                st.hit(&format!("rel:{}=lane^7:{}", adj, zone(i, j)));
+            }
+            if v[j] == p49 {
+                st.hit(&format!("rel:{}=lane^49:{}", adj, zone(i, j)));
+            }
+            if i < 4 && j < 4 && v[j] == li {
+                st.hit(&format!("rel:{}=lookup image", adj));
+            }
+        }
+    }
+}
+
 pub fn gen(rng: &mut Rng, thorough: bool, out: &mut Vec<String>) {
     for c in ["lookup_table", "round_constants", "mds_first_column", "sizes"] {
         out.push(format!("tip5 const {}", c));
@@ -496,6 +657,12 @@ pub fn gen(rng: &mut Rng, thorough: bool, out: &mut Vec<String>) {
             out.push(format!("tip5 trace {}", fmt_list_u64(&state_for_mds_input(r, &t))));
         }
     }
+    // directed: algebraic RELATIONS between lanes that uniform sampling never produces (probability 2^-64 each) --
+    // equal lanes (adjacent / non-adjacent), lane j = (lane i)^7 / ^49 (and the reverse), lanes 0/1/P-1, lanes whose
+    // Montgomery word consists of bytes 00/ff, the lookup image of a neighbour in the lookup lanes, whole 7th-power
+    // chains -- in the power-map lanes 4..15 and in the lookup lanes 0..3, at the input of round 0 and (pulled back
+    // through the inverse rounds) at the input of a later round; through trace, perm, hash10 and hashpair
+    relation_stream(rng, thorough, out);
     // random / boundary states through every public entry point
     let n = if thorough { 200_000 } else { 1200 };
     for _ in 0..n {
@@ -561,6 +728,7 @@ pub fn run_tip5(op: &str, a: &[Arg], st: &mut Stats) -> Option<Out> {
             for r in 0..NUM_ROUNDS {
                 let before: [u64; 16] = vals(&tr[r]).try_into().unwrap();
                 classify_round(&before, st);
+                classify_relations(&before, st);
                 ok_round &= vals(&tr[r + 1]) == spec_round(r, &before).to_vec();
                 ok_canon &= all_canon(&tr[r + 1]);
             }
